@@ -27,7 +27,7 @@ From Coq Require Import ZifyBool.
    a newer time is recorded and notified exactly once; a repeat in the same cycle coalesces. *)
 Theorem record_modified_monotone : forall t k,
   (t <= lmt k -> rec_mod t k = (k, false)) /\
-  (lmt k < t -> rec_mod t k = (mkTrk t (ncnt k + 1), true)) /\
+  (lmt k < t -> rec_mod t k = (mkTrk t (ncnt k + 1) t, true)) /\
   rec_mod t (fst (rec_mod t k)) = (fst (rec_mod t k), false) /\
   lmt k <= lmt (fst (rec_mod t k)) /\
   ncnt (fst (rec_mod t k)) = ncnt k + (if snd (rec_mod t k) then 1 else 0).
@@ -179,7 +179,7 @@ Theorem consumer_delta_only_in_cycle_refuted :
                       [(1, (0%nat, tt)); (2, (1%nat, tt))] (mkCons 0 0 [] true MIN_DT)) = lk /\
     node_line 1 t q (Some lk) false x = obs_line 1 t q true false 1 9 true 9.
 Proof.
-  exists (STSB [STS; STS]), [(1, OSet [1] 9); (2, OSet [0] 7)], [1], (Leaf (mkTrk 1 1) 9), 2, 2.
+  exists (STSB [STS; STS]), [(1, OSet [1] 9); (2, OSet [0] 7)], [1], (Leaf (mkTrk 1 1 1) 9), 2, 2.
   vm_compute. repeat split; reflexivity.
 Qed.
 Print Assumptions consumer_delta_only_in_cycle_refuted.
@@ -190,7 +190,7 @@ Theorem consumers_agree_after_invalidate_refuted :
   exists x lk t, valid x = false /\
     node_line 0 t [] None true x = obs_line 0 t [] false false 0 0 false 0 /\
     node_line 1 t [] (Some lk) true x = obs_line 1 t [] false true 2 0 true 8.
-Proof. exists (Leaf (mkTrk MIN_DT 2) 8), 2, 2. vm_compute. repeat split; reflexivity. Qed.
+Proof. exists (Leaf (mkTrk MIN_DT 2 2) 8), 2, 2. vm_compute. repeat split; reflexivity. Qed.
 Print Assumptions consumers_agree_after_invalidate_refuted.
 
 (* ------------------------------------------------------------------ non-vacuity *)
